@@ -39,6 +39,29 @@ type gen struct {
 	special int // number of marked / unknown collections made
 	smap    map[*decgen.Body]*decgen.SNode
 	flags   map[string]bool
+	// canaries are the distinctive literal strings written inside the content of dynamic blocks whose
+	// for_each is unknown: none of them may show up as a known value in the decoded result
+	canaries []string
+}
+
+// canary tags a literal string that sits under an unknown dynamic block.
+func (g *gen) canary(v cty.Value, scope []*iter) cty.Value {
+	under := false
+	for _, s := range scope {
+		if s.unknown > 0 {
+			under = true
+		}
+	}
+	if !under || !v.IsKnown() || v.IsNull() || v.Type() != cty.String {
+		return v
+	}
+	str := v.AsString()
+	if _, err := cty.ParseNumberVal(str); err == nil || str == "true" || str == "false" {
+		return v
+	}
+	c := fmt.Sprintf("%s~CANARY%d", str, len(g.canaries))
+	g.canaries = append(g.canaries, c)
+	return cty.StringVal(c)
 }
 
 func (g *gen) inAttrsBody(b *decgen.Body) bool {
@@ -120,7 +143,7 @@ func (g *gen) attrExpr(a *decgen.Attr, scope []*iter, inAttrs bool) dexpr {
 	// references from inside a BlockAttrs body run into a recorded defect (the body is handed over
 	// unwrapped): kept, but rare, so that most cases exercise everything else
 	if inAttrs && !r.Chance(1, 8) {
-		return dexpr{lit: a.Val}
+		return dexpr{lit: g.canary(a.Val, scope)}
 	}
 	if len(scope) > 0 && r.Chance(3, 5) {
 		if e, ok := g.derive(a.Val, scope, false); ok {
@@ -132,14 +155,14 @@ func (g *gen) attrExpr(a *decgen.Attr, scope []*iter, inAttrs bool) dexpr {
 	}
 	if r.Chance(1, 8) {
 		name := g.fresh("v")
-		g.vars[name] = a.Val
+		g.vars[name] = g.canary(a.Val, scope)
 		g.count("ref:root-variable")
 		if inAttrs {
 			g.flags["root-variable-in-blockattrs-body"] = true
 		}
 		return dexpr{root: name}
 	}
-	return dexpr{lit: a.Val}
+	return dexpr{lit: g.canary(a.Val, scope)}
 }
 
 func (g *gen) dynamize(b *decgen.Body, scope []*iter) *dbody {
@@ -350,7 +373,7 @@ func build(cx *lib.Ctx, seed uint64, depth int) *c18case {
 		base, _ = bg.Perturb(c.spec, base)
 		count("base:perturbed")
 	}
-	mode := []string{"plain", "plain", "plain", "plain", "marked", "unknown"}[r.Intn(6)]
+	mode := []string{"plain", "plain", "plain", "marked", "unknown", "unknown"}[r.Intn(6)]
 	c.g = &gen{r: r, vars: map[string]cty.Value{}, mode: mode, count: count, smap: decgen.BodySpecs(c.spec, base), flags: map[string]bool{}}
 	c.db = c.g.dynamize(base, nil)
 	c.g.finish()
@@ -418,6 +441,16 @@ func sameOutcome(a, b outcome, modMarks bool) (bool, string) {
 		return false, "value-differs"
 	}
 	return true, ""
+}
+
+func nErrors(d hcl.Diagnostics) int {
+	n := 0
+	for _, x := range d {
+		if x.Severity == hcl.DiagError {
+			n++
+		}
+	}
+	return n
 }
 
 func describeU(o outcome, unmark bool) string {
@@ -567,6 +600,16 @@ func (c *c18case) runAll(cx *lib.Ctx) {
 			}
 			res.Fail(lib.Failure{Kind: "oracle", Key: key, Desc: "with an unknown for_each the decoded value's type does not conform to ImpliedType(spec)", Input: c.input("unknown"), Impl: "value type " + lib.DumpType(uv.Type()) + " ; implied " + lib.DumpType(implied) + " ; " + decgen.DiagText(expanded.diags)})
 		}
+		// the affected part is unknown: nothing written inside the content of a block whose existence is
+		// unknown comes out as a known value
+		dump := lib.DumpValue(uv)
+		for _, cn := range c.g.canaries {
+			if strings.Contains(dump, fmt.Sprintf("%x", cn)) {
+				res.Fail(lib.Failure{Kind: "oracle", Key: "unknown-for_each:content-of-unknown-block-is-known", Desc: "a literal written inside the content of a dynamic block whose for_each is unknown (" + cn + ") appears as a known value in the result", Input: c.input("unknown"), Impl: dump})
+				break
+			}
+		}
+		res.Count(fmt.Sprintf("unknown-content-canaries:%d", min(len(c.g.canaries), 3)))
 		return
 	}
 
@@ -577,16 +620,17 @@ func (c *c18case) runAll(cx *lib.Ctx) {
 		res.Count("written-out-decode-panics(recorded C08 defect)")
 	} else if written.diags.HasErrors() {
 		res.Count("outcome:errors-on-both-sides")
+		first := ""
 		for _, d := range written.diags {
-			if d.Severity == hcl.DiagError {
-				res.Count("written-out-error:" + decgen.SummaryKey(d.Summary))
-				break
+			if k := decgen.SummaryKey(d.Summary); d.Severity == hcl.DiagError && (first == "" || k < first) {
+				first = k
 			}
 		}
+		res.Count("written-out-error:" + first)
 	} else {
 		res.Count("outcome:values-compared")
 	}
-	if expanded.panicked == nil && written.panicked == nil && expanded.diags.HasErrors() && !written.diags.HasErrors() && c.x.sawEmpty {
+	if expanded.panicked == nil && written.panicked == nil && c.x.sawEmpty && nErrors(expanded.diags) > nErrors(written.diags) {
 		// A dynamic block over an empty collection writes out as nothing, yet Expand still validates the
 		// dynamic block itself (block type known to the schema, label count, content block): the extra
 		// error is about the template, not about a difference in the blocks produced.
@@ -602,7 +646,7 @@ func (c *c18case) runAll(cx *lib.Ctx) {
 		defer func() { recover() }()
 		pv, _, pdg := hcldec.PartialDecode(dynblock.Expand(df.Body, c.ctx), spec, c.ctx)
 		wv, _, wdg := hcldec.PartialDecode(wf.Body, spec, c.ctx)
-		if pdg.HasErrors() && !wdg.HasErrors() && c.x.sawEmpty {
+		if c.x.sawEmpty && nErrors(pdg) > nErrors(wdg) {
 			return
 		}
 		if ok, why := sameOutcome(outcome{val: pv, diags: pdg}, outcome{val: wv, diags: wdg}, c.x.sawMarked); !ok {
@@ -677,7 +721,7 @@ func run(cx *lib.Ctx) {
 		return
 	}
 	root := cx.R.Fork()
-	n := cx.Scale(6000, 110000)
+	n := cx.Scale(8000, 200000)
 	for i := 0; i < n; i++ {
 		seed := root.U64()
 		depth := 2 + int(seed%3)
